@@ -163,21 +163,21 @@ class Judge:
                   (len(repr(args[0])), abs(args[0])))
         return False
 
-    def member(self, fn, path, args, got, quarters, err_ok, cls):
-        """CEILING/FLOOR family: got is one of the allowed quarters/4, or
-        #NUM! where the relation allows the error"""
+    def member(self, fn, path, args, got, quarters, err_ok, cls, den=4):
+        """CEILING/FLOOR family: got is one of the allowed quarters/den (units
+        of 1/SigDen), or #NUM! where the relation allows the error"""
         self.v.case((fn, path) + tuple(args))
         if err_ok and isinstance(got, str) and got == '#NUM!':
             return True
-        if any(near(got, Fraction(q, 4)) for q in quarters):
+        if any(near(got, Fraction(q, den)) for q in quarters):
             return True
         self.fail(fn, path,
                   f'{fn}({", ".join(map(repr, args))}) [{path}, {cls}]: expected '
                   f'{"one of " if len(quarters) > 1 else ""}'
-                  f'{sorted(q / 4 for q in quarters)}'
+                  f'{sorted(q / den for q in quarters)}'
                   f'{" or #NUM!" if err_ok else ""}, got {show(got)}',
                   dict(fn=fn, path=path, args=list(args), cls=cls,
-                       judge='member', quarters=sorted(quarters), err_ok=err_ok,
+                       judge='member', quarters=sorted(quarters), den=den, err_ok=err_ok,
                        got=show(got)),
                   (len(repr(args[0])), abs(args[0])))
         return False
@@ -232,6 +232,8 @@ def tlc_runs(tier, rnd):
     if tier == 'quick':
         yield 'Rounding_mc', lambda: tlc.run(
             'MC_Rounding', 'Rounding_mc.cfg', workers=4, coverage=True, timeout=600)
+        yield 'Rounding_dec', lambda: tlc.run(
+            'MC_Rounding', 'Rounding_dec.cfg', workers=4, coverage=True, timeout=600)
         return
     d = tlc.new_scratch('rounding')
     offs = sorted({0, 1237, rnd.randrange(1, 9973), rnd.randrange(1, 9973)})
@@ -248,6 +250,18 @@ def tlc_runs(tier, rnd):
                 f.write(big.replace('MCPhases', 'TPhases').replace('MCJs', 'TJs')
                         .replace('BigGridOffsets', 'TGridOffsets'))
             jobs.append((f'Rounding_big[{ph},j={j}]', name))
+    # decimal significances (twentieths) for the CEILING/FLOOR family
+    for j in range(7):
+        name = f'MC_RoundingT_D{j}'
+        with open(os.path.join(d, name + '.tla'), 'w') as f:
+            f.write(f'---- MODULE {name} ----\nEXTENDS MC_Rounding\n'
+                    f'TPhases == {{"C"}}\nTJs == {{{j}}}\n'
+                    f'TGridOffsets == {{{", ".join(map(str, offs))}}}\n====\n')
+        with open(os.path.join(d, name + '.cfg'), 'w') as f:
+            f.write(big.replace('MCPhases', 'TPhases').replace('MCJs', 'TJs')
+                    .replace('BigGridOffsets', 'TGridOffsets')
+                    .replace('Sigs <- MCSigs', 'Sigs <- DecSigs').replace('SigDen = 4', 'SigDen = 20'))
+        jobs.append((f'Rounding_big[C decimal significances,j={j}]', name))
     pool = ThreadPoolExecutor(max_workers=5)
     futs = {pool.submit(tlc.run, name, os.path.join(d, name + '.cfg'),
                         spec_dir=d, workers=3, coverage=True, timeout=1500,
@@ -348,40 +362,42 @@ class Driver:
     # -- CEILING / FLOOR family ------------------------------------------------
     def lib_C(self, vec):
         k, j, s4, cls = vec['k'], vec['j'], vec['s4'], vec['cls']
-        sig = s4 // 4 if s4 % 4 == 0 else s4 / 4
+        den = vec.get('den', 4)
+        sig = s4 // den if s4 % den == 0 else s4 / den
         for x in number(k, j):
             for i, (name, attr, xname, extra) in enumerate(VARIANTS):
                 got = call(self.F[xname], x, sig, *extra)
                 self.J.member(name, 'lib', (x, sig) + extra, got,
-                              vec['allow'][i], vec['err'][i], cls)
+                              vec['allow'][i], vec['err'][i], cls, den)
                 self.doc_check(vec, i, got)
                 if sig == 1 and not extra and name not in ('CEILING', 'FLOOR'):
                     # significance omitted
                     self.J.member(name, 'lib', (x,), call(self.F[xname], x),
-                                  vec['allow'][i], vec['err'][i], cls)
+                                  vec['allow'][i], vec['err'][i], cls, den)
 
     def doc_check(self, vec, i, got):
         tag, val = vec['doc'][i]
-        same = (got == val) if tag == 'E' else near(got, Fraction(val, 4))
+        same = (got == val) if tag == 'E' else near(got, Fraction(val, vec.get('den', 4)))
         if not same:
             self.J.doc_mismatch += 1
             if self.J.doc_mismatch <= 3:
-                self.v.note(f'{VARIANTS[i][0]} x={vec["k"]}/10^{vec["j"]} sig={vec["s4"]}/4: '
-                            f'{show(got)} differs from Excel\'s documented {val!r} '
+                self.v.note(f'{VARIANTS[i][0]} x={vec["k"]}/10^{vec["j"]} sig={vec["s4"]}/{vec.get("den", 4)}: '
+                            f'{show(got)} differs from Excel\'s documented '
+                            f'{val if tag == "E" else float(Fraction(val, vec.get("den", 4)))!r} '
                             '(allowed by the statement-level relation, not judged)')
 
     def formulas_C(self, vecs):
         rows = []
         for v in vecs:
-            s4 = v['s4']
+            s4, den = v['s4'], v.get('den', 4)
             fs = [f'{xname}({{a}},{{b}}{"".join("," + str(e) for e in extra)})'
                   for name, attr, xname, extra in VARIANTS]
             rows.append((number(v['k'], v['j'])[0],
-                         s4 // 4 if s4 % 4 == 0 else s4 / 4, fs))
+                         s4 // den if s4 % den == 0 else s4 / den, fs))
         for vec, (x, sig, _), res in zip(vecs, rows, eval_formulas(rows)):
             for i, got in enumerate(res):
                 self.J.member(VARIANTS[i][0], 'formula', (x, sig) + VARIANTS[i][3],
-                              got, vec['allow'][i], vec['err'][i], vec['cls'])
+                              got, vec['allow'][i], vec['err'][i], vec['cls'], vec.get('den', 4))
                 self.doc_check(vec, i, got)
 
     def formulas(self):
@@ -557,7 +573,7 @@ def replay(path):
             ok &= near(got, Fraction(*case['want']))
         elif case['judge'] == 'member':
             ok &= (case['err_ok'] and got == '#NUM!') or any(
-                near(got, Fraction(q, 4)) for q in case['quarters'])
+                near(got, Fraction(q, case.get('den', 4))) for q in case['quarters'])
         elif case['judge'] == 'mod':
             want = Fraction(*case['want'])
             scale = max(abs(args[0]), abs(args[1]))
